@@ -29,6 +29,10 @@ pub enum Layout {
     B,
     /// `[f32; 4]`
     C,
+    /// `[f32; 1]`
+    D,
+    /// `[f32; 2]`
+    E,
 }
 
 impl Layout {
@@ -37,6 +41,8 @@ impl Layout {
             Layout::A => &family::FAMILY_A,
             Layout::B => &family::FAMILY_B,
             Layout::C => &family::FAMILY_C,
+            Layout::D => &family::FAMILY_D,
+            Layout::E => &family::FAMILY_E,
         }
     }
     fn k(self) -> u8 {
@@ -45,6 +51,8 @@ impl Layout {
     fn ncomp(self) -> usize {
         match self {
             Layout::C => 4,
+            Layout::D => 1,
+            Layout::E => 2,
             _ => 3,
         }
     }
@@ -53,6 +61,8 @@ impl Layout {
             Layout::A => 12,
             Layout::B => 24,
             Layout::C => 16,
+            Layout::D => 4,
+            Layout::E => 8,
         }
     }
     fn has_single(self) -> bool {
@@ -63,6 +73,8 @@ impl Layout {
             Layout::A => "[f32;3]",
             Layout::B => "[f64;3]",
             Layout::C => "[f32;4]",
+            Layout::D => "[f32;1]",
+            Layout::E => "[f32;2]",
         }
     }
 }
@@ -212,6 +224,8 @@ impl<'c, 'a> Exec<'c, 'a> {
             Layout::A => family::convert_a(from, to, unclamped, w),
             Layout::B => family::convert_b(from, to, unclamped, w),
             Layout::C => family::convert_c(from, to, unclamped, w),
+            Layout::D => family::convert_d(from, to, unclamped, w),
+            Layout::E => family::convert_e(from, to, unclamped, w),
         }
     }
 
@@ -485,10 +499,12 @@ impl World for C13 {
         if index < self.enumerated(tier) {
             return Plan::Crash(crashes[index as usize].clone());
         }
-        let layout = match index % 5 {
+        let layout = match index % 7 {
             0..=2 => Layout::A,
             3 => Layout::B,
-            _ => Layout::C,
+            4 => Layout::C,
+            5 => Layout::D,
+            _ => Layout::E,
         };
         let len = match rng.below(12) {
             0 => 0,
@@ -533,6 +549,8 @@ impl World for C13 {
                 Layout::A => exec_a(*orig, buf, *extra_cap, episodes, ctx),
                 Layout::B => exec_b(*orig, buf, *extra_cap, episodes, ctx),
                 Layout::C => exec_c(*orig, buf, *extra_cap, episodes, ctx),
+                Layout::D => exec_d(*orig, buf, *extra_cap, episodes, ctx),
+                Layout::E => exec_e(*orig, buf, *extra_cap, episodes, ctx),
             },
         }
     }
@@ -588,6 +606,8 @@ impl World for C13 {
                 Layout::B => [0.5f64.to_bits(), 0.5f64.to_bits(), 0.5f64.to_bits(), 0],
                 Layout::A => [0.5f32.to_bits() as u64, 0.5f32.to_bits() as u64, 0.5f32.to_bits() as u64, 0],
                 Layout::C => [0.5f32.to_bits() as u64; 4],
+                Layout::D => [0.5f32.to_bits() as u64, 0, 0, 0],
+                Layout::E => [0.5f32.to_bits() as u64, 0.5f32.to_bits() as u64, 0, 0],
             };
             if *w != simple && i < 8 {
                 let mut b = buf.clone();
@@ -600,7 +620,7 @@ impl World for C13 {
 
     fn info(&self) -> WorldInfo {
         WorldInfo {
-            rule: "world A: plan = (layout family in {[f32;3] x 9 types, [f64;3] x 5, [f32;4] x 5 Alpha types}, original type, buffer of 0..24 colors \
+            rule: "world A: plan = (layout family in {[f32;3] x 7 types, [f64;3] x 5, [f32;4] x 5 Alpha types, [f32;1] x 2 Luma types, [f32;2] x 2 Lumaa types}, original type, buffer of 0..24 colors \
                    with in-range, boundary and out-of-range components, <=3 episodes; an episode is a guard tree (open clamped|unclamped via \
                    from_color_mut|into_color_mut, then a body over {read, write, mutate, then_into_color_mut, then_into_color_unclamped_mut, \
                    into_unclamped_guard/into_clamped_guard, nest to depth 4}, ended by drop|restore|forget|unwind), a single-value guard tree, \
@@ -797,6 +817,8 @@ macro_rules! exec_layout {
                             Layout::A => family::convert_a(cur_tag, *ty, *unclamped, w),
                             Layout::B => family::convert_b(cur_tag, *ty, *unclamped, w),
                             Layout::C => family::convert_c(cur_tag, *ty, *unclamped, w),
+                            Layout::D => family::convert_d(cur_tag, *ty, *unclamped, w),
+                            Layout::E => family::convert_e(cur_tag, *ty, *unclamped, w),
                         };
                         for w in model_words.iter_mut() {
                             *w = conv(*w);
@@ -822,3 +844,5 @@ macro_rules! exec_layout {
 exec_layout!(exec_a, Layout::A, family::make_a, family::readout_a, family::open_a, family::open_single_a, family::vecconv_a, family::BufA);
 exec_layout!(exec_b, Layout::B, family::make_b, family::readout_b, family::open_b, family::open_single_b, family::vecconv_b, family::BufB);
 exec_layout!(exec_c, Layout::C, family::make_c, family::readout_c, family::open_c, family::open_single_c, family::vecconv_c, family::BufC);
+exec_layout!(exec_d, Layout::D, family::make_d, family::readout_d, family::open_d, family::open_single_d, family::vecconv_d, family::BufD);
+exec_layout!(exec_e, Layout::E, family::make_e, family::readout_e, family::open_e, family::open_single_e, family::vecconv_e, family::BufE);
